@@ -2,7 +2,7 @@
 # Offline build of the whole Coq development (full .vo build) from files on disk.
 set -e
 cd "$(dirname "$0")"
-export PYTHONHASHSEED=0 PYTHONPATH=/repo MPLBACKEND=Agg PYTHONDONTWRITEBYTECODE=1
+export PYTHONHASHSEED=0 PYTHONPATH=${MACHUPX_REPO:-/repo} MPLBACKEND=Agg PYTHONDONTWRITEBYTECODE=1
 /venv/bin/python -m harness.live 2> >(grep -v conda >&2)
 cd coq
 coq_makefile -f _CoqProject -o Makefile
